@@ -71,6 +71,7 @@ type engine struct {
 	redials     int64
 	samples     []map[string]string
 	rawSamples  []map[string]string
+	silent      int
 	where       string
 	resentWhere []string
 }
@@ -425,6 +426,14 @@ func (e *engine) runListener(l *listener, qs []query, ts []transport) {
 			if !q.applicable(t) {
 				continue
 			}
+			// after two verdicts of total silence (each after all retries) the remaining
+			// cases of this configuration are not asked: bounds the run time against a
+			// server that stopped answering, deterministically (by count, not by clock)
+			if e.silent >= 2 {
+				r.Add("cases_skipped_after_repeated_silence", 1)
+				r.Exhaustive = false
+				continue
+			}
 			if t.tcp {
 				if tc.used >= 100 { // a fresh connection now and then
 					tc.close()
@@ -462,6 +471,7 @@ func (e *engine) runListener(l *listener, qs []query, ts []transport) {
 			r.Add("socket_exchanges", 1)
 			if respWire == nil {
 				if expectReply {
+					e.silent++
 					e.violate("noreply", q.id(), t.String(), l, "no reply after all attempts; expected:\n"+render(ref.msg), nil)
 				} else {
 					r.Add("responses_compared", 1)
